@@ -31,6 +31,40 @@ def asf_ext_padding(d, inner=700, first=False):
     return None
 
 
+def asf_ext_insert(d, obj, first=False):
+    """insert a raw object inside the Header Extension Object (as its last or first child)"""
+    size, cnt = struct.unpack("<QL", d[16:28])
+    p = 30
+    while p < size:
+        g = d[p:p + 16]
+        n = struct.unpack("<Q", d[p + 16:p + 24])[0]
+        if g == W.G_HEXT:
+            data_size = struct.unpack("<I", d[p + 24 + 18:p + 24 + 22])[0]
+            body_start = p + 24 + 22
+            ins = body_start if first else body_start + data_size
+            nd = d[:ins] + obj + d[ins:]
+            nd = nd[:p + 16] + struct.pack("<Q", n + len(obj)) + nd[p + 24:]
+            nd = nd[:p + 24 + 18] + struct.pack("<I", data_size + len(obj)) + nd[p + 24 + 22:]
+            nd = nd[:16] + struct.pack("<Q", size + len(obj)) + nd[24:]
+            return nd
+        if n < 24:
+            return None
+        p += n
+    return None
+
+
+def asf_top_insert(d, obj):
+    """append a raw object to the top-level header"""
+    size, cnt = struct.unpack("<QL", d[16:28])
+    nd = d[:size] + obj + d[size:]
+    return nd[:16] + struct.pack("<QL", size + len(obj), cnt + 1) + nd[28:]
+
+
+def _unknown_obj(tag, payload):
+    g = bytes.fromhex("0a1b2c3d77774888") + tag.ljust(8, b"\x99")[:8]
+    return g + struct.pack("<Q", 24 + len(payload)) + payload
+
+
 def iff_move_id3(d, kind, tagbytes, odd=True):
     """(re)place the ID3 chunk right after the first chunk, with an odd payload size"""
     big = kind in ("aiff", "dff")
@@ -196,6 +230,14 @@ def extra_samples(kind, base):
                 x = asf_ext_padding(d0, 700, first)
                 if x:
                     out.append(("synth-extpad-%s+%s" % ("first" if first else "last", name0), x))
+            # unknown objects mutagen must keep verbatim: empty payload (exactly 24 bytes), 1 byte, larger; last / first
+            # child of the header extension and at the top level
+            x = asf_ext_insert(d0, _unknown_obj(b"lastnull", b""), first=False)
+            if x:
+                x = asf_ext_insert(x, _unknown_obj(b"firstone", b"\x07"), first=True)
+                x = asf_top_insert(x, _unknown_obj(b"topempty", b""))
+                x = asf_top_insert(x, _unknown_obj(b"topbytes", b"unknown top-level payload"))
+                out.append(("synth-unknown-objects+" + name0, x))
         elif kind.name in ("AIFF", "WAVE"):
             fam = kind.family
             out.append(("synth-id3-middle-odd+" + name0, iff_move_id3(d0, fam, simple_id3(pad=32), odd=True)))
